@@ -137,7 +137,13 @@ def build(case):
                 vid = sd["verid"]
                 if any(vid in v for v in needed.values()):
                     vid += 20
-                defs.setdefault(vid, ([f"VER_{vid}"], 0))
+                # every second definition inherits from the one defined
+                # before it (its name list continues with the parent's name)
+                parents = []
+                older = [v for k, v in defs.items() if v[1] == 0 and k != vid]
+                if older and vid % 2 == 0:
+                    parents = [older[-1][0][0]]
+                defs.setdefault(vid, ([f"VER_{vid}"] + parents, 0))
                 entries[s] = (vid, sd["hidden"])
                 model["entries"][i] = vid
             elif p == "ver-need":
